@@ -317,6 +317,60 @@ theorem client_server_agree (c : B64) (hc : c.Lawful) (pv : Bytes) (m : Msg) (p 
         · rfl
     · simp [hs, hr]
 
+/-! ## The bindings are the annotated properties, each under its own path (any depth, any width) -/
+
+/-- **binding_path_resolves.** Every binding the walk produces designates, read from the root of the schema, a
+property whose `x-mcp-header` is that (non-empty) header name — for schemas of any depth and width. -/
+theorem binding_path_resolves (p : Props) (hd : NamesDistinct p) (b : Binding) (hb : b ∈ bindings p) :
+    b.header ≠ [] ∧ ∃ ty, propAt p b.path = some (ty, .str b.header) := by
+  rw [bindings_eq, List.mem_filterMap] at hb
+  obtain ⟨a, ha, hab⟩ := hb
+  obtain ⟨π, h1, _, h3, _⟩ := annotated_resolves p hd [] a ha
+  unfold toBinding at hab
+  cases hx : a.xh with
+  | str s =>
+    simp only [hx] at hab
+    by_cases hs : s = []
+    · simp [hs] at hab
+    · simp only [hs, if_false, Option.some.injEq] at hab
+      subst hab
+      refine ⟨hs, a.ty, ?_⟩
+      simp only [List.nil_append] at h1
+      rw [h1, h3, hx]
+  | absent => simp [hx] at hab
+  | null => simp [hx] at hab
+  | other => simp [hx] at hab
+
+/-- **bindings_complete.** Every property that a path designates and that is annotated with a non-empty header name
+has its binding, under exactly that path. -/
+theorem bindings_complete (p : Props) (π : List Bytes) (ty h : Bytes)
+    (hp : propAt p π = some (ty, .str h)) (hh : h ≠ []) : ({ path := π, header := h } : Binding) ∈ bindings p := by
+  rw [bindings_eq, List.mem_filterMap]
+  refine ⟨{ path := π, ty := ty, xh := .str h }, ?_, by simp [toBinding, hh]⟩
+  simpa using annotated_complete p [] π ty (.str h) hp (by simp)
+
+/-- **binding_paths_nodup.** No two bindings share a path: sibling (and cousin) annotations never alias, however deep
+they sit. -/
+theorem binding_paths_nodup (p : Props) (hd : NamesDistinct p) : ((bindings p).map (·.path)).Nodup := by
+  rw [bindings_eq]
+  exact List.Nodup.sublist (filterMap_paths_sublist _) (annotated_paths_nodup p hd [])
+
+
+def wString : Bytes := [115, 116, 114, 105, 110, 103]            -- "string"
+
+/-- The shape `filter.scope.target.{region,tenant}`: two annotated siblings four levels below `arguments`. -/
+def wDeep : Props :=
+  .cons [102] [111] .absent
+    (.cons [115] [111] .absent
+      (.cons [116] [111] .absent
+        (.cons [114] wString (.str [82]) .nil (.cons [110] wString (.str [84]) .nil .nil)) .nil) .nil) .nil
+
+example : NamesDistinct wDeep := (namesDistinctB_iff wDeep).mp (by decide)
+example : bindings wDeep =
+    [{ path := [[102], [115], [116], [114]], header := [82] }, { path := [[102], [115], [116], [110]], header := [84] }] := by
+  decide
+example : propAt wDeep [[102], [115], [116], [110]] = some (wString, .str [84]) := by decide
+
 /-! ## violation_status — the gate chain as an ordered table -/
 
 /-- First violated check ↦ its answer; no violated check ↦ `d`. -/
@@ -398,6 +452,7 @@ def hasCalls (r : Req) : Bool := (contentMsgs r).any (fun m => m.isReq && m.isCa
 def postChecks (c : B64) (stateless bodyRead : Bool) (r : Req) : List (Bool × Outcome) :=
   [ (r.lastEventId, rej 400),
     (!bodyRead && tooLarge r, rej 413),
+    (!bodyRead && r.readFails, rej 400),
     (decide (r.bodyLen = 0), rej 400),
     (contentMalformed r, rej 400),
     (batchGateRejects (contentBatch r) (effVersion r.version), rej 400) ] ++
@@ -411,8 +466,16 @@ theorem servePOST_table (c : B64) (stateless bodyRead : Bool) (r : Req) :
     firstViolation_nil]
   split
   · rfl
-  split
-  · rfl
+  have hbg : (if bodyRead = true then none else bodyGate r) =
+      (if (!bodyRead && tooLarge r) = true then some (rej 413)
+       else if (!bodyRead && r.readFails) = true then some (rej 400) else none) := by
+    cases bodyRead <;> simp [bodyGate]
+  rw [hbg]
+  by_cases h1 : (!bodyRead && tooLarge r) = true
+  · simp only [h1, if_true]
+  by_cases h2 : (!bodyRead && r.readFails) = true
+  · simp [h1, h2]
+  simp only [h1, h2, Bool.false_eq_true, if_false]
   split
   · next h => simp [h]
   next h =>
@@ -431,6 +494,11 @@ theorem servePOST_table (c : B64) (stateless bodyRead : Bool) (r : Req) :
       | none => simp
       | some m => simp only; split <;> next hx => simp [hx]
 
+theorem gateThen_bodyGate (r : Req) (k : Outcome) :
+    gateThen (bodyGate r) k = if tooLarge r = true then rej 413 else if r.readFails = true then rej 400 else k := by
+  unfold gateThen bodyGate
+  split <;> rename_i h <;> split at h <;> simp_all
+
 def acceptsBoth (r : Req) : Bool := (streamableAccepts r.accept).1 && (streamableAccepts r.accept).2
 
 /-- **The table.** Every check of the handler of kind `r.kind`, in the code's order, each with the answer the code
@@ -447,6 +515,7 @@ def checks (c : B64) (r : Req) : List (Bool × Outcome) :=
      | .post =>
        [ (decide (r.sess = .none), rej 400),
          (decide (r.sess = .unknown), rej 404),
+         (r.readFails, rej 400),
          ((soleMsg r).isNone, rej 400),
          ((match soleMsg r with | some m => m.isReq && decide (m.check ≠ .ok) | none => false), rej 400) ]
      | .get => []
@@ -459,7 +528,8 @@ def checks (c : B64) (r : Req) : List (Bool × Outcome) :=
       [ (decide (r.method ≠ .post), .reject 405 none (some allowPost)),
         (decide (r.baseMedia ≠ appJson), rej 415),
         (!acceptsBoth r, rej 400),
-        (tooLarge r, rej 413) ] ++ postChecks c true true r
+        (tooLarge r, rej 413),
+        (r.readFails, rej 400) ] ++ postChecks c true true r
      else match r.method with
       | .get =>
         [ (!(streamableAccepts r.accept).2, rej 400),
@@ -471,7 +541,10 @@ def checks (c : B64) (r : Req) : List (Bool × Outcome) :=
       | .post =>
         [ (decide (r.baseMedia ≠ appJson), rej 415),
           (!acceptsBoth r, rej 400),
-          (decide (r.sess = .unknown), rej 404) ] ++ postChecks c false false r
+          (decide (r.sess = .unknown), rej 404) ] ++
+        (if r.sess = .none ∧ r.noSessionIds = true then
+          [ (tooLarge r, rej 413), (r.readFails, rej 400) ] ++ postChecks c false true r
+         else postChecks c false false r)
       | .other => [ (true, .reject 405 none (some allowGetPostDelete)) ])
 
 /-- What the handler does when no check is violated. -/
@@ -508,12 +581,12 @@ theorem violation_status (c : B64) (r : Req) : verdict c r = firstViolation (che
     | delete => simp
     | other => simp
   | stateless =>
-    simp only [serveStreamable, hk, serveStateless, servePOST_table, List.cons_append, List.nil_append,
+    simp only [serveStreamable, hk, serveStateless, bodyGate, servePOST_table, List.cons_append, List.nil_append,
       firstViolation_cons, firstViolation_append, if_true, acceptsBoth]
     repeat' split
     all_goals simp_all
   | stateful =>
-    simp only [serveStreamable, hk, serveStateful, servePOST_table, List.cons_append, List.nil_append,
+    simp only [serveStreamable, hk, serveStateful, gateThen_bodyGate, servePOST_table, List.cons_append, List.nil_append,
       firstViolation_cons, firstViolation_append, acceptsBoth, reduceCtorEq, if_false]
     cases hm : r.method <;> cases hs : r.sess <;> simp only [firstViolation_cons, firstViolation_nil, firstViolation_append]
     all_goals repeat' split
@@ -541,46 +614,56 @@ theorem firstViolation_pass {g : List (Bool × Outcome)} {d o : Outcome}
       · rfl
       · exact h1 y hy
 
-theorem msgChecks_reject (s : Bool) (v : Bytes) (m : Msg) (b : Bool) :
-    ∀ x ∈ msgChecks s v m, x.2 ≠ .dispatched b := by
+/-- No entry of a check table answers "dispatched". -/
+def NoDispatch (g : List (Bool × Outcome)) : Prop := ∀ x ∈ g, ∀ b, x.2 ≠ .dispatched b
+
+theorem noDispatch_nil : NoDispatch [] := by intro x hx; cases hx
+
+theorem noDispatch_cons (c : Bool) (st : Nat) (co : Option Int) (al : Option Bytes) {g : List (Bool × Outcome)}
+    (h : NoDispatch g) : NoDispatch ((c, .reject st co al) :: g) := by
+  intro x hx b
+  rcases List.mem_cons.mp hx with rfl | hx
+  · simp
+  · exact h x hx b
+
+theorem noDispatch_append {g g' : List (Bool × Outcome)} (h : NoDispatch g) (h' : NoDispatch g') :
+    NoDispatch (g ++ g') := by
+  intro x hx b
+  rcases List.mem_append.mp hx with hx | hx
+  · exact h x hx b
+  · exact h' x hx b
+
+theorem noDispatch_flatMap {α : Type} (l : List α) (f : α → List (Bool × Outcome)) (h : ∀ a, NoDispatch (f a)) :
+    NoDispatch (l.flatMap f) := by
+  intro x hx b
+  obtain ⟨a, _, ha⟩ := List.mem_flatMap.mp hx
+  exact h a x ha b
+
+theorem msgChecks_noDispatch (s : Bool) (v : Bytes) (m : Msg) : NoDispatch (msgChecks s v m) := by
   unfold msgChecks
   split
-  · simp
-  · simp [rej, rejRpc]
+  · exact noDispatch_nil
+  · repeat (first | exact noDispatch_nil | apply noDispatch_cons)
 
-theorem postChecks_reject (c : B64) (s br : Bool) (r : Req) (b : Bool) :
-    ∀ x ∈ postChecks c s br r, x.2 ≠ .dispatched b := by
+theorem postChecks_noDispatch (c : B64) (s br : Bool) (r : Req) : NoDispatch (postChecks c s br r) := by
   unfold postChecks
-  intro x hx
-  simp only [List.mem_append, List.mem_cons, List.mem_flatMap, List.not_mem_nil, or_false] at hx
-  rcases hx with (hx | ⟨m, _, hm⟩) | hx
-  · rcases hx with rfl | rfl | rfl | rfl | rfl <;> simp [rej]
-  · exact msgChecks_reject s r.version m b x hm
-  · subst hx; simp [rejRpc]
+  refine noDispatch_append (noDispatch_append ?_ (noDispatch_flatMap _ _ (msgChecks_noDispatch s r.version))) ?_
+  · repeat (first | exact noDispatch_nil | apply noDispatch_cons)
+  · repeat (first | exact noDispatch_nil | apply noDispatch_cons)
 
-theorem checks_reject (c : B64) (r : Req) (b : Bool) : ∀ x ∈ checks c r, x.2 ≠ .dispatched b := by
-  intro x hx
-  unfold checks at hx
-  cases hk : r.kind <;> cases hm : r.method <;> simp only [hk, hm, reduceCtorEq, if_false, if_true] at hx <;>
-    simp only [List.mem_append, List.mem_cons, List.not_mem_nil, or_false] at hx
+theorem checks_noDispatch (c : B64) (r : Req) : NoDispatch (checks c r) := by
+  unfold checks
+  cases hk : r.kind <;> cases hm : r.method <;> simp only [reduceCtorEq, if_false, if_true]
   all_goals
-    first
-    | (rcases hx with hx | hx
-       · rcases hx with rfl | rfl | rfl <;> simp [rej]
-       · rcases hx with hx | hx
-         · rcases hx with rfl | rfl | rfl | rfl <;> simp [rej]
-         · exact postChecks_reject c _ _ r b x hx)
-    | (rcases hx with hx | hx
-       · rcases hx with rfl | rfl | rfl <;> simp [rej]
-       · rcases hx with hx | hx
-         · rcases hx with rfl | rfl | rfl <;> simp [rej]
-         · exact postChecks_reject c _ _ r b x hx)
-    | (rcases hx with hx | hx <;> rcases hx with rfl | rfl | rfl | rfl <;> simp [rej])
-    | (rcases hx with hx | hx <;> rcases hx with rfl | rfl | rfl <;> simp [rej])
-    | (rcases hx with hx | hx <;> rcases hx with rfl | rfl <;> simp [rej])
-    | (rcases hx with rfl | rfl | rfl | rfl <;> simp [rej])
-    | (rcases hx with rfl | rfl | rfl <;> simp [rej])
-    | (rcases hx with rfl | rfl <;> simp [rej])
+    repeat (first
+      | exact noDispatch_nil
+      | exact postChecks_noDispatch c _ _ r
+      | apply noDispatch_cons
+      | apply noDispatch_append
+      | split)
+
+theorem checks_reject (c : B64) (r : Req) (b : Bool) : ∀ x ∈ checks c r, x.2 ≠ .dispatched b :=
+  fun x hx => checks_noDispatch c r x hx b
 
 /-- Every documented precondition of a message-carrying request to the streamable handler. -/
 structure Pre (c : B64) (r : Req) : Prop where
@@ -594,7 +677,10 @@ structure Pre (c : B64) (r : Req) : Prop where
   accept : (streamableAccepts r.accept).1 = true ∧ (streamableAccepts r.accept).2 = true
   session : r.kind = .stateful → r.sess ≠ .unknown
   noLastEventId : r.lastEventId = false
+  /-- no more than the limit is delivered — whether or not a length was declared — and the body is not empty -/
   size : tooLarge r = false ∧ r.bodyLen ≠ 0
+  /-- the body was delivered completely (the reader ended with EOF, not with an error) -/
+  delivered : r.readFails = false
   wellFormed : contentMalformed r = false
   noBatch : batchGateRejects (contentBatch r) (effVersion r.version) = false
   perMessage : ∀ m ∈ contentMsgs r, m.isReq = true →
@@ -671,14 +757,28 @@ theorem validateMcpHeaders_none {c : B64} {pv mm mn : Bytes} {ph : ParamHdrs} {m
       exact (checkBinding_none_iff c _ ph b).mp ((List.findSome?_eq_none_iff.mp hv) b hb)
 
 theorem postChecks_false {c : B64} {s br : Bool} {r : Req} (h : ∀ x ∈ postChecks c s br r, x.1 = false) :
-    r.lastEventId = false ∧ (!br && tooLarge r) = false ∧ r.bodyLen ≠ 0 ∧ contentMalformed r = false ∧
+    r.lastEventId = false ∧ (!br && tooLarge r) = false ∧ (!br && r.readFails) = false ∧ r.bodyLen ≠ 0 ∧
+    contentMalformed r = false ∧
     batchGateRejects (contentBatch r) (effVersion r.version) = false ∧
     (∀ m ∈ contentMsgs r, ∀ x ∈ msgChecks s r.version m, x.1 = false) ∧ headerMismatch c r = false := by
   unfold postChecks at h
   simp only [List.forall_mem_append, List.forall_mem_cons, List.not_mem_nil, false_imp_iff, implies_true, and_true,
     List.mem_flatMap, forall_exists_index, and_imp] at h
-  obtain ⟨⟨⟨h1, h2, h3, h4, h5⟩, h6⟩, h7⟩ := h
-  exact ⟨h1, h2, by simpa using h3, h4, h5, fun m hm x hx => h6 x m hm hx, h7⟩
+  obtain ⟨⟨⟨h1, h2, h2', h3, h4, h5⟩, h6⟩, h7⟩ := h
+  exact ⟨h1, h2, h2', by simpa using h3, h4, h5, fun m hm x hx => h6 x m hm hx, h7⟩
+
+/-- The body part of the stateful POST table (session-bound / new session, or the ephemeral session of a server that
+issues no session ids): nothing violated means within the limit, delivered completely, and the rest of `postChecks`. -/
+theorem statefulBody_false {c : B64} {r : Req}
+    (gp : ∀ x ∈ (if r.sess = .none ∧ r.noSessionIds = true then
+            [ (tooLarge r, rej 413), (r.readFails, rej 400) ] ++ postChecks c false true r
+          else postChecks c false false r), x.1 = false) :
+    tooLarge r = false ∧ r.readFails = false ∧ ∃ br, ∀ x ∈ postChecks c false br r, x.1 = false := by
+  split at gp
+  · simp only [List.cons_append, List.nil_append, List.forall_mem_cons] at gp
+    exact ⟨gp.1, gp.2.1, true, gp.2.2⟩
+  · obtain ⟨_, p2, p2', _⟩ := postChecks_false gp
+    exact ⟨by simpa using p2, by simpa using p2', false, gp⟩
 
 theorem versionGate_false {v : Bytes} (h : versionGateRejects v = false) :
     v = [] ∨ v ∈ supportedProtocolVersions ∨ bLt v protocolVersion20260728 = false := by
@@ -728,8 +828,8 @@ theorem dispatch_sound (c : B64) (r : Req) (hk : r.kind ≠ .sse) (b : Bool)
   | stateless =>
     simp only [hkind, if_true, List.forall_mem_append, List.forall_mem_cons, List.not_mem_nil, false_imp_iff,
       implies_true, and_true] at hall
-    obtain ⟨⟨g1, g2, g3⟩, ⟨g4, g5, g6, g7⟩, gp⟩ := hall
-    obtain ⟨p1, _, p3, p4, p5, p6, p7⟩ := postChecks_false gp
+    obtain ⟨⟨g1, g2, g3⟩, ⟨g4, g5, g6, g7, g7'⟩, gp⟩ := hall
+    obtain ⟨p1, _, _, p3, p4, p5, p6, p7⟩ := postChecks_false gp
     have hacc : acceptsBoth r = true := by simpa using g6
     unfold acceptsBoth at hacc
     simp only [Bool.and_eq_true] at hacc
@@ -737,7 +837,7 @@ theorem dispatch_sound (c : B64) (r : Req) (hk : r.kind ≠ .sse) (b : Bool)
       host := hostGate_false g1, origin := g2, version := versionGate_false g3,
       method := (by simpa using g4), media := (by simpa using g5), accept := hacc,
       session := (by intro hs; rw [hkind] at hs; cases hs),
-      noLastEventId := p1, size := ⟨g7, p3⟩, wellFormed := p4, noBatch := p5,
+      noLastEventId := p1, size := ⟨g7, p3⟩, delivered := g7', wellFormed := p4, noBatch := p5,
       perMessage := (by
         intro m hm hr
         have := msgChecks_false hr (p6 m hm)
@@ -756,7 +856,8 @@ theorem dispatch_sound (c : B64) (r : Req) (hk : r.kind ≠ .sse) (b : Bool)
       simp only [hkind, hm, reduceCtorEq, if_false, List.forall_mem_append, List.forall_mem_cons, List.not_mem_nil,
         false_imp_iff, implies_true, and_true] at hall
       obtain ⟨⟨g1, g2, g3⟩, ⟨g5, g6, g8⟩, gp⟩ := hall
-      obtain ⟨p1, p2, p3, p4, p5, p6, p7⟩ := postChecks_false gp
+      obtain ⟨p2, p2', br, gp'⟩ := statefulBody_false gp
+      obtain ⟨p1, _, _, p3, p4, p5, p6, p7⟩ := postChecks_false gp'
       have hacc : acceptsBoth r = true := by simpa using g6
       unfold acceptsBoth at hacc
       simp only [Bool.and_eq_true] at hacc
@@ -764,7 +865,8 @@ theorem dispatch_sound (c : B64) (r : Req) (hk : r.kind ≠ .sse) (b : Bool)
         host := hostGate_false g1, origin := g2, version := versionGate_false g3,
         method := hm, media := (by simpa using g5), accept := hacc,
         session := (by intro _; simpa using g8),
-        noLastEventId := p1, size := ⟨(by simpa using p2), p3⟩, wellFormed := p4, noBatch := p5,
+        noLastEventId := p1, size := ⟨p2, p3⟩, delivered := p2',
+        wellFormed := p4, noBatch := p5,
         perMessage := (by
           intro m hm' hr
           have := msgChecks_false hr (p6 m hm')
@@ -781,7 +883,7 @@ session, a loopback-consistent Host, and a body that is one message passing `che
 theorem dispatch_sound_sse (c : B64) (r : Req) (hk : r.kind = .sse) (b : Bool)
     (h : verdict c r = .dispatched b) :
     (r.protectionDisabled = true ∨ r.hasLocalAddr = false ∨ r.listenerLoopback = false ∨ r.hostLoopback = true) ∧
-    r.method = .post ∧ r.baseMedia = appJson ∧ r.sess = .known ∧
+    r.method = .post ∧ r.baseMedia = appJson ∧ r.sess = .known ∧ r.readFails = false ∧
     ∃ m, soleMsg r = some m ∧ (m.isReq = true → m.check = .ok) := by
   rw [violation_status] at h
   obtain ⟨hall, hpass⟩ := firstViolation_pass (checks_reject c r b) h
@@ -794,8 +896,8 @@ theorem dispatch_sound_sse (c : B64) (r : Req) (hk : r.kind = .sse) (b : Bool)
   | post =>
     simp only [hk, hm, List.forall_mem_append, List.forall_mem_cons, List.not_mem_nil, false_imp_iff, implies_true,
       and_true, decide_true, Bool.true_and] at hall
-    obtain ⟨⟨g1, g2⟩, g3, g4, g5, g6⟩ := hall
-    refine ⟨hostGate_false g1, rfl, by simpa using g2, ?_, ?_⟩
+    obtain ⟨⟨g1, g2⟩, g3, g4, g4', g5, g6⟩ := hall
+    refine ⟨hostGate_false g1, rfl, by simpa using g2, ?_, g4', ?_⟩
     · cases hs : r.sess <;> simp_all
     · cases hsm : soleMsg r with
       | none => simp [hsm] at g5
@@ -821,6 +923,61 @@ theorem stateful_rejects_new_protocol (c : B64) (r : Req) (hk : r.kind = .statef
   · rw [hk] at h3; cases h3
   · exact hd h3
 
+/-! ## Body delivery: the limit counts delivered bytes; a declared length plays no role -/
+
+/-- **body_limit_ignores_declared_length.** The answer of every handler is the same whatever `Content-Length` the
+request declares, and whether it declares one at all (chunked upload, HTTP/2 stream): the size gate is
+`http.MaxBytesReader`, which counts the bytes that arrive. -/
+theorem body_limit_ignores_declared_length (c : B64) (r : Req) (d : Option Nat) :
+    verdict c { r with declared := d } = verdict c r := rfl
+
+/-- **oversize_never_dispatched.** A body of which more than the (effective, positive) limit is delivered is never handed
+to the MCP server by the streamable handler (stateless, stateful with or without a session) — for every declared
+length including none, every header combination and every content. -/
+theorem oversize_never_dispatched (c : B64) (r : Req) (hk : r.kind ≠ .sse) (h : tooLarge r = true) (b : Bool) :
+    verdict c r ≠ .dispatched b := by
+  intro hd
+  have := (dispatch_sound c r hk b hd).size.1
+  rw [h] at this
+  cases this
+
+/-- **aborted_never_dispatched.** A body whose delivery ends with an error (aborted upload, broken chunk framing,
+fewer bytes than declared) is never handed to the MCP server — by any of the three handlers. -/
+theorem aborted_never_dispatched (c : B64) (r : Req) (h : r.readFails = true) (b : Bool) :
+    verdict c r ≠ .dispatched b := by
+  intro hd
+  by_cases hk : r.kind = .sse
+  · have := (dispatch_sound_sse c r hk b hd).2.2.2.2.1
+    rw [h] at this
+    cases this
+  · have := (dispatch_sound c r hk b hd).delivered
+    rw [h] at this
+    cases this
+
+/-- **oversize_status.** When the body gate is the first one violated — i.e. the request passes the host, origin,
+version, method, media-type, Accept, session and Last-Event-ID gates — an oversize body is answered 413, declared
+length or not. -/
+theorem oversize_status (c : B64) (r : Req) (hk : r.kind ≠ .sse)
+    (hhost : hostGateRejects r = false) (horigin : r.originRejects = false)
+    (hver : versionGateRejects r.version = false) (hmeth : r.method = .post) (hmedia : r.baseMedia = appJson)
+    (hacc : acceptsBoth r = true) (hsess : r.sess ≠ .unknown) (hle : r.lastEventId = false)
+    (h : tooLarge r = true) : verdict c r = rej 413 := by
+  unfold acceptsBoth at hacc
+  unfold verdict
+  cases hkind : r.kind with
+  | sse => exact absurd hkind hk
+  | stateless =>
+    simp [serveStreamable, hhost, horigin, hver, hkind, serveStateless, hmeth, hmedia, hacc, bodyGate, h]
+  | stateful =>
+    cases hs : r.sess with
+    | unknown => exact absurd hs hsess
+    | none =>
+      simp [serveStreamable, hhost, horigin, hver, hkind, serveStateful, hmeth, hmedia, hacc, hs, servePOST, hle,
+        bodyGate, gateThen, h]
+    | known =>
+      simp [serveStreamable, hhost, horigin, hver, hkind, serveStateful, hmeth, hmedia, hacc, hs, servePOST, hle,
+        bodyGate, h]
+
 /-! ## the SDK client's request is dispatched (corollary; also the non-vacuity witness of `dispatch_sound`) -/
 
 /-- `"application/json, text/event-stream"`: the `Accept` value `streamableClientConn.Write` sets. -/
@@ -833,12 +990,13 @@ theorem clientAccept_ok : streamableAccepts [clientAccept] = (true, true) := by 
 /-- **client_request_dispatched.** What `streamableClientConn.Write` produces under 2026-07-28 for a call with valid
 arguments — POST, `application/json`, `Accept: application/json, text/event-stream`, version header = `_meta` version,
 the standard headers of `setStandardHeaders` — is handed to the server by the stateless handler whenever the transport
-facts hold (Host consistent with the listener, origin accepted, body within the limit, method known). -/
+facts hold (Host consistent with the listener, origin accepted, body within the limit and delivered completely —
+with or without a declared length —, method known). -/
 theorem client_request_dispatched (c : B64) (hc : c.Lawful) (r : Req) (m : Msg) (p : Props)
     (hkind : r.kind = .stateless) (hhost : hostGateRejects r = false) (horigin : r.originRejects = false)
     (hmeth : r.method = .post) (hmedia : r.baseMedia = appJson) (haccept : r.accept = [clientAccept])
     (hver : r.version = protocolVersion20260728) (hle : r.lastEventId = false)
-    (hsize : tooLarge r = false) (hlen : r.bodyLen ≠ 0)
+    (hsize : tooLarge r = false) (hread : r.readFails = false) (hlen : r.bodyLen ≠ 0)
     (hbody : r.content = .msgs false [m]) (hreq : m.isReq = true) (hcheck : m.check = .ok)
     (hmeta : m.metaVersion = r.version)
     (hm : m.method ≠ [])
@@ -862,7 +1020,8 @@ theorem client_request_dispatched (c : B64) (hc : c.Lawful) (r : Req) (m : Msg) 
     simp [e1, e2]
   unfold verdict
   simp only [hkind, serveStreamable, hhost, horigin, hvg, Bool.false_eq_true, if_false, if_true, serveStateless, hmeth,
-    ne_eq, not_true_eq_false, hmedia, haccept, clientAccept_ok, Bool.and_self, Bool.not_true, hsize, servePOST, hle,
+    ne_eq, not_true_eq_false, hmedia, haccept, clientAccept_ok, Bool.and_self, Bool.not_true, bodyGate, hsize, hread,
+    servePOST, hle,
     Bool.and_false, hlen, hbody, batchGateRejects, Bool.false_and, List.findSome?_cons, hgate, List.findSome?_nil, hsole,
     hagree, List.any_cons, hreq, Bool.true_and, List.any_nil, Bool.or_false]
 
@@ -874,7 +1033,6 @@ theorem idCodec_lawful : idCodec.Lawful := fun _ => rfl
 
 def wRegion : Bytes := [114, 101, 103, 105, 111, 110]            -- "region"
 def wHeader : Bytes := [82, 101, 103, 105, 111, 110]             -- "Region"
-def wString : Bytes := [115, 116, 114, 105, 110, 103]            -- "string"
 def wTool : Bytes := [116]                                        -- "t"
 /-- `{"region": {"type":"string","x-mcp-header":"Region"}}` -/
 def wProps : Props := .cons wRegion wString (.str wHeader) .nil .nil
@@ -917,17 +1075,39 @@ theorem f6_unrepaired_rejects :
     checkBindingUnrepaired idCodec wMsg.args (generateParamHeaders idCodec wProps wMsg.args)
       { path := [wRegion], header := wHeader } = some .missing := by decide
 
+/-- The ephemeral branch of `serveStatefulPOST` as it is in the pinned tree (before fix preflight-F30): every error of
+`ephemeralConnectOpts`, `*http.MaxBytesError` included, is answered 400. -/
+def ephemeralGateUnrepaired (r : Req) : Option Outcome :=
+  if tooLarge r || r.readFails then some (rej 400) else none
+
 /-- A dispatched request exists (so `dispatch_sound` is not vacuous), and a stateful handler refuses the same body. -/
 def wReq (k : HKind) : Req :=
   { kind := k, protectionDisabled := false, hasLocalAddr := true, listenerLoopback := true, hostLoopback := true,
     originRejects := false, method := .post, baseMedia := appJson, accept := [clientAccept],
-    version := protocolVersion20260728, sess := .none, lastEventId := false, limit := 0, bodyLen := 100,
-    content := .msgs false [wMsg], mcpMethod := methodCallTool, mcpName := wTool, paramHdrs := [] }
+    version := protocolVersion20260728, sess := .none, noSessionIds := false, lastEventId := false, limit := 0, bodyLen := 100,
+    declared := some 100, readFails := false, content := .msgs false [wMsg], mcpMethod := methodCallTool, mcpName := wTool, paramHdrs := [] }
 
 example : verdict idCodec (wReq .stateless) = .dispatched true := by decide
 example : verdict idCodec (wReq .stateful) = rejRpc 400 codeUnsupportedProtocolVersion := by decide
 example : verdict idCodec { wReq .stateless with hostLoopback := false } = rej 403 := by decide
 example : verdict idCodec { wReq .stateless with bodyLen := 4194305 } = rej 413 := by decide
+/-- the same oversize body uploaded without a declared length (chunked), stateless and on a stateful handler's new session -/
+example : verdict idCodec { wReq .stateless with bodyLen := 4194305, declared := none } = rej 413 := by decide
+example : verdict idCodec { wReq .stateful with bodyLen := 4194305, declared := none } = rej 413 := by decide
+/-- a stateful handler whose server issues no session ids serves the POST on an ephemeral session: 413 there too
+(REPAIRED behaviour, fix preflight-F30) -/
+example : verdict idCodec { wReq .stateful with noSessionIds := true, bodyLen := 4194305, declared := none } = rej 413 := by
+  decide
+/-- an upload that breaks off after 100 of 4000 declared bytes -/
+example : verdict idCodec { wReq .stateless with declared := some 4000, readFails := true } = rej 400 := by decide
+/-- a chunked body within the limit is dispatched -/
+example : verdict idCodec { wReq .stateless with declared := none } = .dispatched true := by decide
 example : verdict idCodec { wReq .stateless with mcpName := [] } = rejRpc 400 codeHeaderMismatch := by decide
+
+/-- **preflight-F30 (counter-example for the unrepaired code).** An oversize body sent to a stateful handler whose server
+issues no session ids is answered 400 by the unrepaired branch, where the size gate mandates 413 (`oversize_status`). -/
+theorem f30_unrepaired_answers_400 :
+    ephemeralGateUnrepaired { wReq .stateful with noSessionIds := true, bodyLen := 4194305 } = some (rej 400) ∧
+    bodyGate { wReq .stateful with noSessionIds := true, bodyLen := 4194305 } = some (rej 413) := by decide
 
 end Preflight
